@@ -30,15 +30,15 @@ theorem nodeVal_succ (g : Segment) (A : Option Assets) (f : Nat) (n : Uid) :
         if g.trained n then
           match g.publisher n .train, g.publisher n .label with
           | some x, some y =>
-            .state w.actor (if w.stateful then storedState A w.gid else .none)
+            .state w.actor (if w.stateful then (storedState A w.gid).asState else .none)
               (portValOf g (nodeVal g A f) x) (portValOf g (nodeVal g A f) y)
           | _, _ => .error .arity
         else
           .apply w.actor
             (if !w.stateful then .none
              else match g.trainerOf w.gid with
-               | some t => nodeVal g A f t.uid
-               | none => storedState A w.gid)
+               | some t => (nodeVal g A f t.uid).asState
+               | none => (storedState A w.gid).asState)
             ((List.range w.szin).filterMap (fun i => (g.publisher n (.apply i)).map (portValOf g (nodeVal g A f)))) := by
   rfl
 
@@ -131,7 +131,7 @@ theorem Denotes.nodeVal (hd : Denotes g A t) (h : WF g rank) (hA : AssetsOK g A)
           hd.value_loader h hAs (loaderSym_mem hwm hp), exec_train_preset, storedState_persistent hAs hc]
       | false =>
         simp only [Bool.false_eq_true, if_false, List.nil_append, List.map_cons, List.map_nil, exec_train,
-          storedState_not_persistent hT.stateful hp]
+          storedState_not_persistent hT.stateful hp, Val.asState_none]
     | false =>
       have hisT : g.isTrainer w = false := by simp [isTrainer, htr]
       have hdata : (g.dataArgs w).map (Table.value A t t.fuel) =
@@ -178,7 +178,7 @@ theorem Denotes.nodeVal (hd : Denotes g A t) (h : WF g rank) (hA : AssetsOK g A)
               | true => have := hA.elsewhere w hwm hst hc; rw [hp] at this; cases this
             have hpre : g.hasPreset A w = false := by rw [hasPreset, hst, hp, hder, hst, hel]; rfl
             simp only [hpre, Bool.false_eq_true, if_false, List.map_nil, List.nil_append, exec_apply,
-              storedState_not_persistent hst hp]
+              storedState_not_persistent hst hp, Val.asState_none]
 
 /-- at the default fuel of `GraphEval` -/
 theorem Denotes.value_uid (hd : Denotes g A t) (h : WF g rank) (hA : AssetsOK g A) {w : Worker} (hw : w ∈ g.workers) :
